@@ -596,6 +596,8 @@ func TestVerifC17(t *testing.T) {
 	// CheckpointNow against a real local checkpoint document and an in-process BLIP peer
 	c17Persist(t, r, vNewRand(vSeed()^0x17), [][]c17Op{regress, corpus[3], corpus[4]})
 	rec.Extra("checkpointnow_stores_lower_value", r.persistsLower)
+	// ---- world: persistence, restarts, failures between the two writes, status (verif_c17_persist_test.go) ----
+	c17WorldStreams(t, r, vNewRand(vSeed()^0x1717))
 
 	for _, ops := range corpus {
 		for _, thr := range []int{0, 2, 100} {
